@@ -563,6 +563,8 @@ class Ev:
                 for val, name in rv.get("variants", []):
                     if name == kv:
                         return ("int", val)
+            if rv.get("adt"):
+                self.__dict__.setdefault("discr_adt", {})[a] = rv["adt"]       # which enum's discriminant is read (a transparent conversion hides it in the term)
             return ("discr", a)
         if k == "agg":
             ak = rv["ak"]
